@@ -26,3 +26,61 @@ Theorem C10_trimmed_mean : forall n b J J', wfmat n J -> J <> [] -> Permutation 
   agg_trimmed_mean RN b J = agg_trimmed_mean RN b J'.
 Proof. exact trimmed_mean_perm. Qed.
 Print Assumptions C10_trimmed_mean.
+
+(* ---- added: equivariance of the QP-, score- and pseudo-inverse-based weightings ---- *)
+From TJ.proofs Require Import QPProofs C16Proofs EquivarianceProofs.
+(* the Gramian of the permuted matrix is the Gramian permuted on both sides *)
+Theorem C10_gram_perm : forall J p, gramR (perm_rows p J) = permM p (gramR J).
+Proof. exact gram_perm_rows. Qed.
+Print Assumptions C10_gram_perm.
+(* the constrained minimiser travels with the permutation *)
+Theorem C10_qp_minimiser_equivariant : forall m M p u w, length M = m -> wfmat m M -> is_perm m p ->
+  length u = m -> length w = m ->
+  (is_min m M u w <-> is_min m (permM p M) (permR p u) (permR p w)).
+Proof. exact is_min_perm_iff. Qed.
+Print Assumptions C10_qp_minimiser_equivariant.
+(* ... and is unique for the regularised normalised Gramian, on both sides of the norm_eps branch *)
+Theorem C10_qp_minimiser_unique : forall n J p s ne re u w w', wfmat n J -> is_perm (length J) p ->
+  (nltb RN s ne = false -> 0 < s) -> 0 < re ->
+  is_min (length J) (reg_norm_gramian RN (gramR J) s ne re) u w ->
+  is_min (length J) (reg_norm_gramian RN (gramR (perm_rows p J)) s ne re) (permR p u) w' ->
+  w' = permR p w.
+Proof. exact reg_min_perm_unique. Qed.
+Print Assumptions C10_qp_minimiser_unique.
+(* DualProj / UPGrad: whenever the QP oracle answers are minimisers on both sides, permuting the
+   rows leaves A(J) unchanged (preference vectors permuted alongside: agg_dualproj_perm /
+   agg_upgrad_perm in EquivarianceProofs.v) *)
+Theorem C10_dualproj : forall n J J' qp s ne re, wfmat n J -> J <> [] -> Permutation J J' ->
+  (nltb RN s ne = false -> 0 < s) -> 0 < re ->
+  let m := length J in
+  let u := mean_weights RN m in
+  let M := reg_norm_gramian RN (gramR J) s ne re in
+  let M' := reg_norm_gramian RN (gramR J') s ne re in
+  is_min m M u (qp M u) -> is_min m M' u (qp M' u) ->
+  agg_dualproj RN qp None s ne re J' = agg_dualproj RN qp None s ne re J.
+Proof. exact agg_dualproj_Permutation. Qed.
+Print Assumptions C10_dualproj.
+Theorem C10_upgrad : forall n J J' qp s ne re, wfmat n J -> J <> [] -> Permutation J J' ->
+  (nltb RN s ne = false -> 0 < s) -> 0 < re ->
+  let m := length J in
+  let u := mean_weights RN m in
+  let M := reg_norm_gramian RN (gramR J) s ne re in
+  let M' := reg_norm_gramian RN (gramR J') s ne re in
+  (forall i, (i < m)%nat ->
+     is_min m M (onehotR m i (vget RN u i)) (qp M (onehotR m i (vget RN u i))) /\
+     is_min m M' (onehotR m i (vget RN u i)) (qp M' (onehotR m i (vget RN u i)))) ->
+  agg_upgrad RN qp None s ne re J' = agg_upgrad RN qp None s ne re J.
+Proof. exact agg_upgrad_Permutation. Qed.
+Print Assumptions C10_upgrad.
+(* Krum: with pairwise distinct scores (no exact ties) *)
+Theorem C10_krum : forall n J J' f k, wfmat n J -> J <> [] -> Permutation J J' ->
+  distinct_on (length J) (krum_scores RN (krum_distances RN (gramR J)) (length J - f - 2)) ->
+  agg_krum RN f k J' = agg_krum RN f k J.
+Proof. exact agg_krum_Permutation. Qed.
+Print Assumptions C10_krum.
+(* IMTL-G: a Penrose inverse of the permuted Gramian exists for which the result is unchanged *)
+Theorem C10_imtlg : forall n J J' P thr, wfmat n J -> J <> [] -> Permutation J J' ->
+  length P = length J -> wfmat (length J) P -> is_pinv (length J) (gramR J) P ->
+  exists P', is_pinv (length J') (gramR J') P' /\ agg_imtlg RN P' thr J' = agg_imtlg RN P thr J.
+Proof. exact agg_imtlg_Permutation. Qed.
+Print Assumptions C10_imtlg.
